@@ -58,10 +58,12 @@ struct Ctx
   std::string sc;   // "d" | "f"
   std::vector<Field> fields;
   Rng rng{1};
+  bool exact = false;  // operands from the exactly representable lattice: results are compared without tolerance
   Ev ev(const char * op)
   {
     Ev e;
     e.str("op", op).raw("g", gj).str("sc", sc);
+    if (exact) e.num("x", 1);
     return e;
   }
 };
@@ -114,6 +116,7 @@ static void c01_case(Ctx & c, const std::vector<double> & c1, const std::vector<
           if (cls == 1) x = c.rng.uni(-2, 2);
           if (cls == 2) x = c.rng.uni(-1e3, 1e3);
           if (cls == 0 && i == 0) x = c.rng.idx(2) ? 0.0 : 1.0;
+          if (c.exact) x = static_cast<double>(c.rng.idx(5) - 2);   // lattice replay: integer points, exact results
           v(i) = static_cast<S>(x);
         }
         const Eigen::Matrix<S, Dsc::ActDim, 1> r = g1 * v;
@@ -450,7 +453,9 @@ static int main_(int argc, char ** argv)
       auto need = [&](std::size_t k) { while (vs.size() < k) vs.emplace_back(); };
       auto elem = [&](std::size_t i) { need(i + 1); if (vs[i].size() != static_cast<std::size_t>(REP)) { G id = smooth::Identity<G>(); Coef cc = coeffs_of(id); vs[i].assign(static_cast<std::size_t>(REP), 0.0); for (int k = 0; k < REP; ++k) vs[i][static_cast<std::size_t>(k)] = static_cast<double>(cc(k)); } return vs[i]; };
       auto tang = [&](std::size_t i) { need(i + 1); vs[i].resize(static_cast<std::size_t>(DOF), 0.0); return vs[i]; };
-      if (cs == "c01") c01_case(c, elem(0), elem(1), elem(2));
+      c.exact = cs == "c01x" || cs == "c03x";
+      if (cs == "c01" || cs == "c01x") c01_case(c, elem(0), elem(1), elem(2));
+      else if (cs == "c03x") c03_case(c, elem(0), tang(1), tang(2), tang(3));
       else if (cs == "identity") identity_case(c);
       else if (cs == "exp") c02_exp_case(c, tang(0));
       else if (cs == "log") c02_log_case(c, elem(0));
